@@ -169,15 +169,17 @@ def configs_for(prop, tier, seed):
     def want(c):
         tags = set(c['tags'])
         if prop == 'C03':
-            return 'alignas' in tags
+            return 'alignas' in tags and 'a8' not in tags
         if prop == 'C06':
             return 'nontrivial' in tags
         if prop == 'C08':
             return 'stateful' in tags
         if prop in ('C13', 'C14'):
             return 'comparable' in tags and 'a8' not in tags
+        if 'layout' in tags:
+            return prop in ('C02', 'C03', 'C04', 'C05')
         if 'a8' in tags:
-            return prop in ('C07', 'C09', 'C17')
+            return prop in ('C07', 'C09', 'C16', 'C17')
         return True
     return [c for c in cs if want(c)]
 
